@@ -13,4 +13,67 @@ namespace Romea.Hidden.C10
 
 theorem hidden_state_as_recorded : Romea.Generated.C10.hiddenState = [] := by rfl
 
+/-- The names (not only the types) of what every translated function reads, carries through its loops and returns are those
+    the bridge theorems were written against: a function that now reads or writes ANOTHER member of the same type keeps its Lean
+    type, and a positional application in a bridge would keep checking. -/
+theorem signatures_as_recorded : Romea.Generated.C10.signatures = [
+    "M_2PI (2 Trans.pi)",
+    "between0And2Pi_f32 (val) result: ret",
+    "between0And2Pi (val) result: ret",
+    "betweenMinusPiAndPi_f32 (val) result: ret",
+    "betweenMinusPiAndPi (val) result: ret",
+    "rotation2DToEulerAngle_f32 (rotation_0_0 rotation_0_1 rotation_1_0 rotation_1_1) result: ret",
+    "rotation2DToEulerAngle (rotation_0_0 rotation_0_1 rotation_1_0 rotation_1_1) result: ret",
+    "rotation3DToEulerAngles_f32 (inRotation_0_0 inRotation_1_0 inRotation_2_0 inRotation_2_1 inRotation_2_2) result: ret_0, ret_1, ret_2",
+    "rotation3DToEulerAngles (inRotation_0_0 inRotation_1_0 inRotation_2_0 inRotation_2_1 inRotation_2_2) result: ret_0, ret_1, ret_2",
+    "SmartRotation3D.init_R (Rx__0_0 Rx__0_1 Rx__0_2 Rx__1_0 Rx__2_0 Ry__0_1 Ry__1_0 Ry__1_1 Ry__1_2 Ry__2_1 Rz__0_2 Rz__1_2 Rz__2_0 Rz__2_1 Rz__2_2 angleAroundXAxis angleAroundYAxis angleAroundZAxis) result: R__0_0', R__0_1', R__0_2', R__1_0', R__1_1', R__1_2', R__2_0', R__2_1', R__2_2'",
+    "PolarCoordinates.PolarCoordinates (azimut range) result: azimut_', range_'",
+    "PolarTransform.azimut (point_0 point_1) result: ret",
+    "PolarTransform.range (point_0 point_1) result: ret",
+    "toPolar (point_0 point_1) result: ret_azimut_, ret_range_",
+    "PolarTransform.x_2 (azimut range) result: ret",
+    "PolarCoordinates.getAzimut (azimut_) result: ret",
+    "PolarCoordinates.getRange (range_) result: ret",
+    "PolarTransform.x (point_azimut_ point_range_) result: ret",
+    "PolarTransform.y_2 (azimut range) result: ret",
+    "PolarTransform.y (point_azimut_ point_range_) result: ret",
+    "toCartesian (point_azimut_ point_range_) result: ret_0, ret_1",
+    "SphericalTransform.range (point_0 point_1 point_2) result: ret",
+    "SphericalCoordinates.SphericalCoordinates (azimut elevation range) result: azimut_', elevation_', range_'",
+    "SphericalTransform.azimut (point_0 point_1) result: ret",
+    "SphericalTransform.elevation (range z) result: ret",
+    "toSpherical (point_0 point_1 point_2) result: ret_azimut_, ret_elevation_, ret_range_",
+    "SphericalTransform.x_2 (azimut elevation range) result: ret",
+    "SphericalCoordinates.getElevation (elevation_) result: ret",
+    "SphericalTransform.x (point_azimut_ point_elevation_ point_range_) result: ret",
+    "SphericalTransform.y_2 (azimut elevation range) result: ret",
+    "SphericalTransform.y (point_azimut_ point_elevation_ point_range_) result: ret",
+    "SphericalTransform.z_2 (elevation range) result: ret",
+    "SphericalTransform.z (point_elevation_ point_range_) result: ret",
+    "toCartesian_spherical (point_azimut_ point_elevation_ point_range_) result: ret_0, ret_1, ret_2",
+    "PolarCoordinates.PolarCoordinates_f32 (azimut range) result: azimut_', range_'",
+    "PolarTransform.azimut_f32 (point_0 point_1) result: ret",
+    "PolarTransform.range_f32 (point_0 point_1) result: ret",
+    "toPolar_f32 (point_0 point_1) result: ret_azimut_, ret_range_",
+    "PolarTransform.x_f32_2 (azimut range) result: ret",
+    "PolarCoordinates.getAzimut_f32 (azimut_) result: ret",
+    "PolarCoordinates.getRange_f32 (range_) result: ret",
+    "PolarTransform.x_f32 (point_azimut_ point_range_) result: ret",
+    "PolarTransform.y_f32_2 (azimut range) result: ret",
+    "PolarTransform.y_f32 (point_azimut_ point_range_) result: ret",
+    "toCartesian_f32 (point_azimut_ point_range_) result: ret_0, ret_1",
+    "SphericalTransform.range_f32 (point_0 point_1 point_2) result: ret",
+    "SphericalCoordinates.SphericalCoordinates_f32 (azimut elevation range) result: azimut_', elevation_', range_'",
+    "SphericalTransform.azimut_f32 (point_0 point_1) result: ret",
+    "SphericalTransform.elevation_f32 (range z) result: ret",
+    "toSpherical_f32 (point_0 point_1 point_2) result: ret_azimut_, ret_elevation_, ret_range_",
+    "SphericalTransform.x_f32_2 (azimut elevation range) result: ret",
+    "SphericalCoordinates.getElevation_f32 (elevation_) result: ret",
+    "SphericalTransform.x_f32 (point_azimut_ point_elevation_ point_range_) result: ret",
+    "SphericalTransform.y_f32_2 (azimut elevation range) result: ret",
+    "SphericalTransform.y_f32 (point_azimut_ point_elevation_ point_range_) result: ret",
+    "SphericalTransform.z_f32_2 (elevation range) result: ret",
+    "SphericalTransform.z_f32 (point_elevation_ point_range_) result: ret",
+    "toCartesian_spherical_f32 (point_azimut_ point_elevation_ point_range_) result: ret_0, ret_1, ret_2"] := by rfl
+
 end Romea.Hidden.C10
